@@ -485,6 +485,7 @@ func (c *BytecodeCompiler) CompileInclude(target types.Namespace, mixin *types.M
 
 func (c *BytecodeCompiler) InitExpressionCompiler(location *position.Location) Compiler {
 	exprCompiler := NewBytecodeCompiler("<file>", topLevelBytecodeCompilerMode, location, c.checker, c.globalData)
+	exprCompiler.additionalAbortChecks = c.additionalAbortChecks
 	exprCompiler.Errors = c.Errors
 
 	c.emitValue(value.Ref(exprCompiler.bytecode), location)
@@ -604,6 +605,7 @@ func (c *BytecodeCompiler) compileFunction(location *position.Location, paramete
 
 func (c *BytecodeCompiler) InitMethodCompiler(location *position.Location) (Compiler, int) {
 	methodCompiler := NewBytecodeCompiler("<methodDefinitions>", topLevelBytecodeCompilerMode, c.bytecode.Location, c.checker, c.globalData)
+	methodCompiler.additionalAbortChecks = c.additionalAbortChecks
 	methodCompiler.Errors = c.Errors
 	methodCompiler.parent = c
 
@@ -619,6 +621,7 @@ var ivarIndicesSymbol = value.ToSymbol("<ivarIndices>")
 
 func (c *BytecodeCompiler) InitIvarIndicesCompiler(location *position.Location) (Compiler, int) {
 	ivarCompiler := NewBytecodeCompiler(ivarIndicesSymbol.String(), topLevelBytecodeCompilerMode, c.bytecode.Location, c.checker, c.globalData)
+	ivarCompiler.additionalAbortChecks = c.additionalAbortChecks
 	ivarCompiler.Errors = c.Errors
 	ivarCompiler.parent = c
 
@@ -945,6 +948,7 @@ func (c *BytecodeCompiler) CompileMethodBody(node *ast.MethodDefinitionNode, nam
 	}
 
 	methodCompiler := NewBytecodeCompiler(name.String(), mode, node.Location(), c.checker, c.globalData)
+	methodCompiler.additionalAbortChecks = c.additionalAbortChecks
 	methodCompiler.isGenerator = node.IsGenerator()
 	methodCompiler.isAsync = node.IsAsync()
 	methodCompiler.Errors = c.Errors
@@ -1728,6 +1732,7 @@ func (c *BytecodeCompiler) compileDeferExpressionNode(node *ast.DeferExpressionN
 	c.compileLocalVariableAccess(deferStackVarName, loc)
 
 	closureCompiler := NewBytecodeCompiler("<defer>", methodBytecodeCompilerMode, loc, c.checker, c.globalData)
+	closureCompiler.additionalAbortChecks = c.additionalAbortChecks
 	closureCompiler.parent = c
 	closureCompiler.Errors = c.Errors
 	closureCompiler.hasDefer = node.HasDefer
@@ -4994,6 +4999,7 @@ func (c *BytecodeCompiler) singletonBlockIsCompilable(node *ast.SingletonBlockEx
 	singletonName := singletonType.Name()
 
 	singletonCompiler := NewBytecodeCompiler(fmt.Sprintf("<singleton_class: %s>", singletonName), namespaceBytecodeCompilerMode, location, c.checker, c.globalData)
+	singletonCompiler.additionalAbortChecks = c.additionalAbortChecks
 	singletonCompiler.Errors = c.Errors
 	singletonCompiler.hasDefer = node.HasDefer
 	if !singletonCompiler.compileNamespace(node) {
@@ -5020,6 +5026,7 @@ func (c *BytecodeCompiler) compileSingletonBlockExpressionNode(node *ast.Singlet
 
 func (c *BytecodeCompiler) compileGoExpressionNode(node *ast.GoExpressionNode) {
 	closureCompiler := NewBytecodeCompiler("<closure>", methodBytecodeCompilerMode, node.Location(), c.checker, c.globalData)
+	closureCompiler.additionalAbortChecks = c.additionalAbortChecks
 	closureCompiler.parent = c
 	closureCompiler.Errors = c.Errors
 	closureCompiler.hasDefer = node.HasDefer
@@ -5059,6 +5066,7 @@ func (c *BytecodeCompiler) compileGoExpressionNode(node *ast.GoExpressionNode) {
 
 func (c *BytecodeCompiler) compileClosureLiteralNode(node *ast.ClosureLiteralNode) {
 	closureCompiler := NewBytecodeCompiler("<closure>", methodBytecodeCompilerMode, node.Location(), c.checker, c.globalData)
+	closureCompiler.additionalAbortChecks = c.additionalAbortChecks
 	closureCompiler.parent = c
 	closureCompiler.Errors = c.Errors
 	closureType := c.typeOf(node).(*types.Callable)
@@ -5109,6 +5117,7 @@ func (c *BytecodeCompiler) mixinIsCompilable(node *ast.MixinDeclarationNode) boo
 	mixinType := c.typeOf(node).(*types.Mixin)
 
 	mixinCompiler := NewBytecodeCompiler(fmt.Sprintf("<mixin: %s>", mixinType.Name()), namespaceBytecodeCompilerMode, node.Location(), c.checker, c.globalData)
+	mixinCompiler.additionalAbortChecks = c.additionalAbortChecks
 	mixinCompiler.Errors = c.Errors
 	mixinCompiler.hasDefer = node.HasDefer
 	if !mixinCompiler.compileNamespace(node) {
@@ -5141,6 +5150,7 @@ func (c *BytecodeCompiler) moduleIsCompilable(node *ast.ModuleDeclarationNode) b
 
 	modType := c.typeOf(node).(*types.Module)
 	modCompiler := NewBytecodeCompiler(fmt.Sprintf("<module: %s>", modType.Name()), namespaceBytecodeCompilerMode, node.Location(), c.checker, c.globalData)
+	modCompiler.additionalAbortChecks = c.additionalAbortChecks
 	modCompiler.Errors = c.Errors
 	modCompiler.hasDefer = node.HasDefer
 	if !modCompiler.compileNamespace(node) {
@@ -5173,6 +5183,7 @@ func (c *BytecodeCompiler) interfaceIsCompilable(node *ast.InterfaceDeclarationN
 	ifaceType := c.typeOf(node).(*types.Interface)
 
 	ifaceCompiler := NewBytecodeCompiler(fmt.Sprintf("<interface: %s>", ifaceType.Name()), namespaceBytecodeCompilerMode, node.Location(), c.checker, c.globalData)
+	ifaceCompiler.additionalAbortChecks = c.additionalAbortChecks
 	ifaceCompiler.Errors = c.Errors
 	ifaceCompiler.hasDefer = node.HasDefer
 	if !ifaceCompiler.compileNamespace(node) {
@@ -5205,6 +5216,7 @@ func (c *BytecodeCompiler) classIsCompilable(node *ast.ClassDeclarationNode) boo
 	classType := c.typeOf(node).(*types.Class)
 
 	classCompiler := NewBytecodeCompiler(fmt.Sprintf("<class: %s>", classType.Name()), namespaceBytecodeCompilerMode, node.Location(), c.checker, c.globalData)
+	classCompiler.additionalAbortChecks = c.additionalAbortChecks
 	classCompiler.Errors = c.Errors
 	classCompiler.hasDefer = node.HasDefer
 	if !classCompiler.compileNamespace(node) {
